@@ -23,7 +23,7 @@ ANCHORS = [("leuvenmapmatching/util/dist_euclidean.py", "interpolate_path"),
            ("leuvenmapmatching/util/dist_latlon.py", "interpolate_path")]
 FLOORS = {"subdivided_gaps:planar": 2000, "subdivided_gaps:latlon": 2000, "exact_division_cases": 100,
           "repeated_point_cases": 200, "triple_cases": 300, "single_point_cases": 100, "inserted_points_judged": 20000, "near_multiple_cases": 800,
-          "gaps_across_antimeridian:eastward": 60, "gaps_across_antimeridian:westward": 60}
+          "latlon_class:longhaul": 150, "latlon_class:polar": 150, "gaps_across_antimeridian:eastward": 60, "gaps_across_antimeridian:westward": 60}
 ASSUMPTIONS = ["an inserted point counts as 'on the connection' within 1e-9*gap + (64+2k) ulp of the coordinates for k inserted points "
                "(the repository accumulates k rounded additions; first false alarm of this check, corrected) / 1 mm (sphere)",
                "gap bound judged as spacing*(1+1e-9) plus one ulp of the coordinates"]
@@ -40,11 +40,28 @@ def gen_case(rng, i, tier):
         if rng.random() < 0.12:
             # "every trace": one that crosses the antimeridian (longitudes jump between +180 and -180), in either direction
             base = (base[0], rng.choice([-1, 1]) * (180.0 - 10 ** rng.uniform(-6, -2)))
+        r = rng.random()
+        leg = (-1, 3.5)
+        if r < 0.06:
+            # "every trace": legs of 500 .. 15 000 km (a flight, a ship), far more than 90 degrees of longitude
+            leg = (5.7, 7.17)
+            case_cls = "longhaul"
+        elif r < 0.12:
+            # legs of 20 .. 500 km within a few degrees of a pole (longitude runs fast, the connection is far from a rhumb line)
+            base = (rng.choice([-1, 1]) * rng.uniform(84.0, 89.3), base[1])
+            leg = (4.3, 5.7)
+            case_cls = "polar"
+        else:
+            case_cls = "street"
         pts = []
         cur = base
         for _ in range(n):
             pts.append(cur)
-            cur = rg.gc_dest(cur, rng.uniform(0, 360), 10 ** rng.uniform(-1, 3.5))
+            for _try in range(20):
+                nxt = rg.gc_dest(cur, rng.uniform(0, 360), 10 ** rng.uniform(*leg))
+                if abs(nxt[0]) < 89.6:
+                    break
+            cur = nxt
         gaps = [rg.gc_dist(a, b) for a, b in zip(pts, pts[1:])] or [1.0]
         dd = max(gaps) * rng.choice([2.0, 1.0, 0.5, 0.3, 0.1, 0.01, 0.001, rng.uniform(0.002, 1.5)])
     else:
@@ -78,7 +95,8 @@ def gen_case(rng, i, tier):
         pts[j] = pts[j - 1]
     if triple:
         pts = [(p[0], p[1], 1000.0 + 7 * k) for k, p in enumerate(pts)]
-    return {"metric": metric, "path": [list(p) for p in pts], "dd": dd, "exact": exact, "triple": triple, "near_multiple": near}
+    return {"metric": metric, "path": [list(p) for p in pts], "dd": dd, "exact": exact, "triple": triple, "near_multiple": near,
+            "cls": case_cls if metric == "latlon" else "planar"}
 
 
 def check_case(ctx, case):
@@ -92,6 +110,8 @@ def check_case(ctx, case):
         ctx.count("single_point_cases")
     if case.get("near_multiple"):
         ctx.count("near_multiple_cases")
+    if case.get("cls") in ("longhaul", "polar") and len(path) > 1:
+        ctx.count(f"latlon_class:{case['cls']}")
     if case["triple"]:
         ctx.count("triple_cases")
     if any(a[:2] == b[:2] for a, b in zip(path, path[1:])):
@@ -100,12 +120,23 @@ def check_case(ctx, case):
         for a, b in zip(path, path[1:]):
             if abs(a[1] - b[1]) > 180:
                 ctx.count("gaps_across_antimeridian:" + ("westward" if a[1] < b[1] else "eastward"))
+    arg = list(path)
+    cont = ["tuples", "tuples", "lists", "arrays", "npfloat"][int(abs(dd) * 1e6) % 5] if len(path) else "tuples"
+    if cont == "lists":
+        arg = [list(p) for p in path]
+    elif cont == "arrays":
+        import numpy as np
+        arg = [np.array(p) for p in path]
+    elif cont == "npfloat":
+        import numpy as np
+        arg = [tuple(np.float64(x) for x in p) for p in path]
+    ctx.count(f"container:{cont}")
     try:
-        out = lib.interpolate_path(list(path), dd)
+        out = lib.interpolate_path(arg, dd)
     except Exception as e:
         ctx.violation(f"C20:{m}:raises-{type(e).__name__}", case, repr(e))
         return
-    out = [tuple(p) for p in out]
+    out = [tuple(float(x) for x in p) for p in out]
     if not out or out[0] != path[0]:
         ctx.violation(f"C20:{m}:first-point-changed", case, f"out[0]={out[:1]} path[0]={path[0]}")
         return
@@ -151,7 +182,8 @@ def check_case(ctx, case):
                 return
             if latlon:
                 d, t, _ = rg.gc_point_segment(q, a, b)
-                tol, ttol = 1e-3, (1e-3 / L if L > 0 else 1.0)
+                tol = 1e-3 + 2e-9 * L   # 1 mm, plus the rounding of coordinates in degrees on legs of thousands of km
+                ttol = (tol / L if L > 0 else 1.0)
             else:
                 d, t, _ = rg.pl_point_segment(q, a, b)
                 tol = 1e-9 * L + (64 + 2 * len(ins)) * EPS * mag
@@ -165,7 +197,7 @@ def check_case(ctx, case):
             tprev = max(tprev, t)
     for u, v in zip(out, out[1:]):
         g = rg.gc_dist(u, v) if latlon else rg.pl_dist(u[:2], v[:2])
-        slack = 1e-6 if latlon else 64 * EPS * max(abs(x) for x in u[:2] + v[:2])
+        slack = (1e-6 + 2e-9 * g) if latlon else 64 * EPS * max(abs(x) for x in u[:2] + v[:2])
         if not g <= dd * (1 + 1e-9) + slack:
             ctx.violation(f"C20:{m}:gap-larger-than-spacing", case, f"gap {g} between {u} and {v} with spacing {dd}")
             return
